@@ -1123,6 +1123,8 @@ var invalidStatements = []string{
 	"v = a.(3 += 1);", "v = a.(1 = 2);", "v = a.[1];", "v = a.;",
 	"if ( 1 ) ; { }", "while ( 0 ) v = 1;", "if 1 { }", "switch 1 { }", "if ( 1 ) { } else ; { }", "switch ( 1 ) { case 1 ; { } }", "switch ( 1 ) { 1 { } }", "switch ( 1 ) { default { } default { } }",
 	"local;", "return", "v = ;", "= 3;", "else { }", "case 1 { }", "v = [1 2];", "v = {\"a\" 1};", "v = {\"a\": 1 \"b\": 2};", "v = id(1 2);",
+	// a compound assignment whose target is a construct rather than a variable (seed C13i-1)
+	"function ff() { return 1; } += 3;", "if ( true ) { 1; } *= 2;", "local lx += 3;", "while ( 0 ) { } -= 1;", "foreach z in [1] { } += 1;", "switch ( 1 ) { default { } } /= 2;", "if ( 1 ) { } else { } += 1;",
 }
 
 var statementContexts = []string{"%s", "if ( 1 ) { %s }", "if ( 0 ) { } else { %s }", "function g() { %s }", "while ( 0 ) { %s }", "foreach y in [1] { %s }", "switch ( 1 ) { default { %s } }",
